@@ -66,6 +66,12 @@ func findClosestN(query fastaio.EncodedFastaRecord, catchmentSize int, maxdist f
 			distance = tn93Distance(query, target)
 		}
 
+		// a target whose distance to the query is undefined (NaN: no site resolved in both) is never
+		// within a distance of it nor closer than anything, and NaN must not reach the sort below
+		if math.IsNaN(distance) {
+			continue
+		}
+
 		if maxdist != -1.0 {
 			if distance > maxdist {
 				continue
